@@ -516,7 +516,7 @@ class Registry:
         cname = caller.short if caller else "?"
         for i, req in enumerate(contract.requires):
             val = I.eval_spec(req, env)
-            eng.check(f"{cname}#call:{contract.short}.requires[{i}]@{I.lineno}", val, line=I.lineno, kind="precondition")
+            eng.check(f"{cname}#call:{contract.short}.requires[{i}]", val, line=I.lineno, kind="precondition")
             eng.assume(val)
         old = snapshot_env(I, env)
         env.vars["_old"] = old
